@@ -301,6 +301,75 @@ fn real_models<F: Scalar>(p: &Params) {
     let _ = Axis(0);
 }
 
+
+/// same batch-independence obligations for predictors given as a closure from a batch (any layout) to one
+/// output vector per row
+fn batches_agree_fn<F: Scalar, T: Clone>(name: &str, q: &Array2<F>, pred: &dyn Fn(ndarray::ArrayView2<F>) -> Vec<Vec<T>>, eq: impl Fn(&T, &T) -> bool) {
+    let n = q.nrows();
+    let same = |a: &Vec<T>, b: &Vec<T>| a.len() == b.len() && a.iter().zip(b).all(|(x, y)| eq(x, y));
+    let full = pred(q.view());
+    check_bool(&format!("{}.one output per row", name), full.len() == n);
+    if full.len() != n {
+        return;
+    }
+    for i in 0..n {
+        let one = q.slice(ndarray::s![i..i + 1, ..]).to_owned();
+        let y = pred(one.view());
+        check_bool(&format!("{}.row alone == row in batch", name), y.len() == 1 && same(&y[0], &full[i]));
+    }
+    let rev = q.slice(ndarray::s![..;-1, ..]).to_owned();
+    let yr = pred(rev.view());
+    check_bool(&format!("{}.reversed batch", name), yr.len() == n && (0..n).all(|i| same(&yr[n - 1 - i], &full[i])));
+    let mut dup = Array2::from_elem((2 * n, q.ncols()), F::lit(0.0));
+    for i in 0..n {
+        dup.row_mut(2 * i).assign(&q.row(i));
+        dup.row_mut(2 * i + 1).assign(&q.row(i));
+    }
+    let yd = pred(dup.view());
+    check_bool(&format!("{}.duplicated rows", name), yd.len() == 2 * n && (0..n).all(|i| same(&yd[2 * i], &full[i]) && same(&yd[2 * i + 1], &full[i])));
+    let mut cm = Array2::from_elem((n, q.ncols()).f(), F::lit(0.0));
+    cm.assign(q);
+    let yc = pred(cm.view());
+    check_bool(&format!("{}.column-major copy", name), yc.len() == n && (0..n).all(|i| same(&yc[i], &full[i])));
+    let sv = dup.slice(ndarray::s![..;2, ..]);
+    let ys = pred(sv);
+    check_bool(&format!("{}.strided view", name), ys.len() == n && (0..n).all(|i| same(&ys[i], &full[i])));
+    let empty = Array2::from_elem((0, q.ncols()), F::lit(0.0));
+    check_bool(&format!("{}.empty batch gives no output", name), pred(empty.view()).is_empty());
+}
+
+/// predictors whose `fit` exists for primitive floats only but whose `predict` is generic: fitted on concrete
+/// f64 data, re-typed over the scalar through serde (`symx::to_scalar_model`), queried on symbolic rows
+fn retyped_models<F: Scalar + serde::Serialize + serde::de::DeserializeOwned>(p: &Params) {
+    let which = p.u("model", 0);
+    let (nq, d) = (p.u("nq", 2), p.u("d", 2));
+    let b = p.get("B", 8);
+    let a: [[f64; 3]; 8] = [[-3.0, 1.0, 2.0], [-1.0, -2.0, 0.0], [0.0, 3.0, -1.0], [2.0, 2.0, 4.0], [3.0, -1.0, 1.0], [5.0, 0.0, -2.0], [1.0, 1.5, 0.5], [-2.0, 0.5, 3.0]];
+    let nt = 8;
+    let xt = Array2::from_shape_fn((nt, d), |(i, j)| a[i][j % 3]);
+    let q = sym_matrix::<F>("q", nq, d, b);
+    let rows2 = |y: Array2<F>| -> Vec<Vec<F>> { y.rows().into_iter().map(|r| r.to_vec()).collect() };
+    match which {
+        0 => {
+            let m64 = linfa_reduction::Pca::params(d.min(2)).fit(&DatasetBase::from(xt.clone())).expect("pca fit");
+            let m: linfa_reduction::Pca<F> = symx::to_scalar_model(&m64);
+            batches_agree_fn::<F, F>("pca", &q, &|x| rows2(m.predict(&x)), feq::<F>);
+        }
+        1 => {
+            let y2 = Array2::from_shape_fn((nt, 2), |(i, k)| a[i][0] * (1.0 + k as f64) - 0.5 * a[i][1] + 0.05 * i as f64);
+            let m64 = linfa_pls::PlsRegression::<f64>::params(d.min(2)).fit(&Dataset::new(xt.clone(), y2)).expect("pls fit");
+            let m: linfa_pls::PlsRegression<F> = symx::to_scalar_model(&m64);
+            batches_agree_fn::<F, F>("pls_regression", &q, &|x| rows2(m.predict(&x)), feq::<F>);
+        }
+        _ => {
+            use linfa_clustering::GaussianMixtureModel;
+            let m64 = GaussianMixtureModel::params(2).n_runs(1).max_n_iterations(20).fit(&DatasetBase::from(xt.clone())).expect("gmm fit");
+            let m: GaussianMixtureModel<F> = symx::to_scalar_model(&m64);
+            batches_agree_fn::<F, usize>("gmm", &q, &|x| m.predict(&x).iter().map(|v| vec![*v]).collect(), |a, b| a == b);
+        }
+    }
+}
+
 pub fn register(v: &mut Vec<HarnessDef>) {
     harness!(v, "c03.forms", "C03", forms,
         "the four blanket Predict forms, predict_inplace and a strided view agree on a per-row mock predictor",
@@ -319,4 +388,8 @@ pub fn register(v: &mut Vec<HarnessDef>) {
         "real fitted predictors: a row's prediction does not depend on batch composition, order, duplication or memory layout",
         ["KMeans::predict_inplace", "FittedLinearRegression::predict_inplace", "ElasticNet::predict_inplace", "MultiTaskElasticNet::predict_inplace", "DecisionTree::predict_inplace / make_prediction", "GaussianNb / MultinomialNb::predict_inplace (base_nb)", "Svm<F,bool>::predict_inplace / weighted_sum"],
         ["query rows symbolic integers in [-B,B]; training data concrete unless symtrain=1", "arithmetic outputs compared in exact arithmetic (summation order may differ between layouts)"]);
+    harness!(v, "c03.batches_retyped", "C03", retyped_models,
+        "predictors whose fit is tied to f64 but whose predict is generic over linfa::Float (PCA, PLS regression, Gaussian mixture; Tweedie and isotonic regression bound their predict to argmin's float trait and cannot be re-typed) are fitted on concrete data, re-typed over the symbolic scalar through serde and queried on symbolic rows: batch composition, order, duplication and layout do not matter",
+        ["Pca::predict_inplace", "PlsRegression::predict_inplace (Pls::predict)", "GaussianMixtureModel::predict_inplace (estimate_log_prob_resp)"],
+        ["fitted parameters are concrete f64 constants (non-dyadic: products are inexact, outputs compared to a relative 1e-9)", "query rows symbolic integers in [-B,B]"]);
 }
